@@ -535,6 +535,38 @@ CLAIMED = {
         'DESIGN.md 4/C11'),
 }
 
+# what the later batches of seeded changes added to each check (appended to `text`)
+ADDENDA = {
+    'C01': ' Also: SY_assoc.cfg (parenthesised ^ / - to length 7, the logical literal TRUE in '
+           'every letter case) and SY_str.cfg (string literals inside calls and array literals).',
+    'C02': ' Also: -inf / complex results, text left of an error.',
+    'C04': ' Also: sheet titles IT\'S and TRUE, the same written [n]Sheet!ref under five link '
+           'tables in one process, identifiers read back through the parser too.',
+    'C05': ' Also: arrays with blank elements; the compiled lifted operator is called on Ranges that '
+           'are read again afterwards (operands kept).',
+    'C06': ' Also: after every operation both operands are read again and must be unchanged.',
+    'C07': ' Also: the inverse side of Assemble.tla (a value supplied through a requested rectangle '
+           'reaches every populated cell inside), 1 000 layouts.',
+    'C09': ' Also: numeric literals (every NumLit literal and long decimals) exported and re-read '
+           'to the same double; the blanks an export holds against the blank nodes Assemble.tla '
+           'allows; SY_assoc / SY_str sequences.',
+    'C10': ' Also: one-alternative guards (IFERROR, two-argument IF), strongly connected '
+           'components reached from earlier trees.',
+    'C12': ' Also: all cases of one function run in one process in shuffled order, whole numbers '
+           'typed 2 and 2.0 / supplied as int and float (memos keyed by == show).',
+    'C13': ' Also: numpy\'s generator positioned at the smallest and largest draws '
+           '(RAND in [0, 1), RANDBETWEEN within bounds for every state).',
+    'C14': ' Also: dotted unknown function names ending in an implemented name, absent workbooks '
+           'whose names are not in capitals, unreadable (non-zip) files.',
+    'C16': ' Also: compare() without a solution after the model was used with other inputs / outputs.',
+    'C17': ' Also: model, deep copy and dill copy calculated with the same inputs (whole sparse '
+           'ranges included) and compared cell by cell, no expected values involved.',
+    'C18': ' Also: named reference forms (ANCHORARRAY, INDIRECT, last cells, odd sheet titles), '
+           'one spelling used as function and operand, mis-punctuated error literals in the soup.',
+    'C19': ' Also: adjacent wild cards against texts of every length, blanks and the text '
+           '"empty", whole numbers of cells as int and as float.',
+}
+
 REASON_PENDING = 'check not built yet in this round (planned, see DESIGN.md section 8)'
 
 
@@ -548,6 +580,7 @@ def build():
         if pid not in CLAIMED:
             continue
         tech, text, note, ref = CLAIMED[pid]
+        text = text + ADDENDA.get(pid, '')
         checks.append({
             'property_id': pid,
             'quick_cmd': 'bin/check %s --tier quick' % pid,
